@@ -223,3 +223,47 @@ PROPS["C14"] = {
     "assumptions": ["the scripted transport cuts before every fd-carrying message as the kernel does; how many bytes each recvmsg asks for is not judged",
                     "handshake-leftover hand-off is exercised under C17"],
 }
+
+PROPS["C15"] = {
+    "level": "exploration",
+    "plan": zb_plan(("release", "tsan", "miri"), miri_scale=0.0),
+    "rule": ("storms of 2/4/8/16 OS threads x 6000 (20000 thorough) message builds through three construction paths sharing the "
+             "process-wide counter, half of them started (through the cfg(zbus_verif) hook) shortly before the 32-bit wrap so that it "
+             "happens mid-storm, plus the exact single-thread boundary sequence; all serials non-zero, pairwise distinct, and the "
+             "multiset exactly the contiguous range from the starting counter value skipping zero; distinct = distinct (storm shape, "
+             "number of adjacent serials owned by different threads)"),
+    "gates": {"quick": {"evaluations": 25, "serials_observed": 500000, "interleaving_switches": 10000, "distinct": 10},
+              "thorough": {"evaluations": 300, "serials_observed": 20000000, "distinct": 100}},
+    "assumptions": ["real OS threads: interleavings are whatever the machine produces (contention measured and reported); TSan layer in thorough"],
+}
+
+PROPS["C16"] = {
+    "level": "exploration",
+    "plan": zb_plan(("release", "miri")),
+    "rule": ("EVERY client line sequence of length <= 3 (4 thorough) over 21 line templates (AUTH with none/EXTERNAL/ANONYMOUS/unknown "
+             "mechanism and matching/other/non-numeric/empty/bad-hex identities, DATA variants, BEGIN, CANCEL, ERROR, NEGOTIATE_UNIX_FD, "
+             "unknown, empty, non-UTF-8, lowercase) x {EXTERNAL creds known, EXTERNAL creds unknown, ANONYMOUS x2} with whole/1-byte/"
+             "random read splits and partial writes, random sequences to length 12, and malformed framings (LF first, missing NUL, bare "
+             "CR/LF, 100 kB line); the real server handshake's outcome and reply lines are compared with the reference SASL server "
+             "model (soundness and conformance kept as separate finding classes); distinct = distinct (sequence, config) x schedule"),
+    "gates": {"quick": {"evaluations": 30000, "distinct": 20000, "class:lib-authenticated": 200, "class:model-authenticated": 200},
+              "thorough": {"evaluations": 700000, "distinct": 400000}},
+    "exhaustive_note": "all sequences up to classes.exhaustive_max_len over the 21 templates x 4 configurations (classes.exhaustive_sequences_total)",
+    "assumptions": ["AUTH without initial response is answered with DATA (standard SASL challenge) for both mechanisms",
+                    "a misplaced BEGIN may be answered with ERROR or a disconnect; malformed hex with ERROR or REJECTED"],
+}
+
+PROPS["C17"] = {
+    "level": "exploration",
+    "plan": zb_plan(("release", "miri")),
+    "rule": ("EVERY server reply sequence of length <= 2 (3 thorough) over 15 templates (OK with valid/upper-case/31-/33-hex/hyphenated/"
+             "non-hex/missing GUID, REJECTED, ERROR, DATA, AGREE_UNIX_FD, unknown, non-UTF-8, empty, BEGIN) x fd-capable or not x "
+             "read splits, plus random leftover scenarios behind a proper handshake (0..6 trailing messages with 0..2 fds each, merged "
+             "into the last handshake read the way the kernel batches them); success => first reply was a proper OK, proper "
+             "server => success, fd capability (observed by sending an fd) <=> AGREE_UNIX_FD, trailing messages and fds delivered "
+             "intact and in order; distinct = distinct (script, fd pattern) x schedule"),
+    "gates": {"quick": {"evaluations": 3000, "distinct": 1000, "class:leftover-random": 2000, "leftover_messages_sent": 5000},
+              "thorough": {"evaluations": 200000, "distinct": 50000}},
+    "assumptions": ["the expected-GUID check needs an address with a guid= key (real socket); it is exercised by the thorough real-socket layer only",
+                    "the property only constrains success (necessary condition); extra lenience such as a second OK is not judged"],
+}
